@@ -2,6 +2,8 @@ package props
 
 import (
 	"fmt"
+	"sort"
+	"sync"
 	"time"
 
 	"golang.org/x/tools/go/ssa"
@@ -17,45 +19,119 @@ var kindNames = map[string]string{
 	"EXT": "callee modelled", "CTR": "contract",
 }
 
-// boundsRun analyses the entries and reports every aggregated obligation under rule BOUNDS.<kind>.
+// boundsRun analyses the entries (one engine per entry, in parallel) and reports every
+// aggregated obligation under rule BOUNDS.<kind>.
 func boundsRun(c *Ctx, entries []*ssa.Function, hooks *bounds.Hooks) int {
 	p, r := c.Prog, c.R
-	cfg := bounds.Config{K: 64, MaxDepth: 4}
+	cfg := bounds.Config{K: 64, MaxDepth: 7, RetCap: 8}
 	if c.Tier == "thorough" {
-		cfg = bounds.Config{K: 128, MaxDepth: 6}
+		cfg = bounds.Config{K: 128, MaxDepth: 9, RetCap: 16}
 	}
 	t0 := time.Now()
-	eng := bounds.New(p, cfg, hooks)
+	var uniq []*ssa.Function
 	seen := map[*ssa.Function]bool{}
 	for _, fn := range entries {
 		if fn == nil || seen[fn] {
 			continue
 		}
 		seen[fn] = true
-		t1 := time.Now()
-		e0, _, _ := eng.Stats()
-		eng.AnalyzeEntry(fn)
-		e1, _, _ := eng.Stats()
-		if dt := time.Since(t1).Seconds(); dt > 0.5 {
-			r.Infof("BOUNDS entry %s: %.1fs, %d entailment queries", core.FuncName(fn), dt, e1-e0)
-		}
+		uniq = append(uniq, fn)
 	}
+	type result struct {
+		eng  *bounds.Engine
+		dt   float64
+		fail string
+	}
+	results := make([]result, len(uniq))
+	sem := make(chan struct{}, 12)
+	var wg sync.WaitGroup
+	for i, fn := range uniq {
+		wg.Add(1)
+		go func(i int, fn *ssa.Function) {
+			defer wg.Done()
+			sem <- struct{}{}
+			defer func() { <-sem }()
+			defer func() {
+				if x := recover(); x != nil {
+					results[i].fail = fmt.Sprintf("BOUNDS panic in %s: %v", core.FuncName(fn), x)
+				}
+			}()
+			t1 := time.Now()
+			eng := bounds.New(p, cfg, hooks)
+			eng.AnalyzeEntry(fn)
+			results[i] = result{eng: eng, dt: time.Since(t1).Seconds()}
+		}(i, fn)
+	}
+	wg.Wait()
+	// aggregate obligations across engines: an instruction is discharged only if every engine
+	// (context) discharged it
+	type agg struct {
+		o   *bounds.Oblig
+		ctx int
+	}
+	merged := map[string]*agg{}
+	var order []string
+	totalEn, totalFe, totalSt, nfuncs := 0, 0, 0, map[*ssa.Function]bool{}
+	for i, res := range results {
+		if res.fail != "" {
+			r.Fatalf("%s", res.fail)
+			continue
+		}
+		if res.eng == nil {
+			r.Fatalf("BOUNDS: no result for %s", core.FuncName(uniq[i]))
+			continue
+		}
+		if res.dt > 2 {
+			r.Infof("BOUNDS entry %s: %.1fs", core.FuncName(uniq[i]), res.dt)
+		}
+		for _, o := range res.eng.Obligations() {
+			k := fmt.Sprintf("%p|%s|%s", o.Instr, o.Kind, o.Text)
+			a := merged[k]
+			if a == nil {
+				cp := *o
+				merged[k] = &agg{o: &cp}
+				order = append(order, k)
+				continue
+			}
+			a.o.Contexts += o.Contexts
+			if !o.OK && a.o.OK {
+				a.o.OK = false
+				a.o.Detail = o.Detail
+			}
+		}
+		for f := range res.eng.Funcs() {
+			nfuncs[f] = true
+			r.FuncsSeen[core.FuncName(f)] = true
+		}
+		en, fe, st := res.eng.Stats()
+		totalEn, totalFe, totalSt = totalEn+en, totalFe+fe, totalSt+st
+	}
+	var obls []*bounds.Oblig
+	for _, k := range order {
+		obls = append(obls, merged[k].o)
+	}
+	sort.SliceStable(obls, func(i, j int) bool {
+		a, b := obls[i], obls[j]
+		if a.Fn != b.Fn {
+			return core.FuncName(a.Fn) < core.FuncName(b.Fn)
+		}
+		return a.Pos < b.Pos
+	})
 	n := 0
-	for _, o := range eng.Obligations() {
+	for _, o := range obls {
 		n++
 		text := p.TextAt(o.Pos, o.Instr.String())
 		if o.Text != "" {
 			text = o.Text + ": " + text
 		}
-		r.Add("BOUNDS."+o.Kind, core.FuncName(o.Fn), text, p.Position(o.Pos), o.OK,
-			fmt.Sprintf("%s not entailed (%d context(s)): %s", kindNames[o.Kind], o.Contexts, o.Detail))
+		detail := ""
+		if !o.OK {
+			detail = fmt.Sprintf("%s not entailed (%d context(s)): %s", kindNames[o.Kind], o.Contexts, o.Detail)
+		}
+		r.Add("BOUNDS."+o.Kind, core.FuncName(o.Fn), text, p.Position(o.Pos), o.OK, detail)
 	}
-	for f := range eng.Funcs() {
-		r.FuncsSeen[core.FuncName(f)] = true
-	}
-	en, fe, st := eng.Stats()
-	r.Infof("BOUNDS: %d entries, %d functions, %d obligations, %d entailment queries, %d feasibility queries, %d instruction steps, %.1fs (K=%d depth=%d)",
-		len(seen), len(eng.Funcs()), n, en, fe, st, time.Since(t0).Seconds(), cfg.K, cfg.MaxDepth)
+	r.Infof("BOUNDS: %d entries, %d functions, %d obligations, %d entailment queries, %d feasibility queries, %d instruction steps, %.1fs wall (K=%d depth=%d)",
+		len(uniq), len(nfuncs), n, totalEn, totalFe, totalSt, time.Since(t0).Seconds(), cfg.K, cfg.MaxDepth)
 	return n
 }
 
